@@ -47,6 +47,12 @@ def spec(tier):
                     fixed[f"m{k}"] = 3
                     fixed[f"d{k}"] = 1
                 obs.append(CH(name=f"run_mixed_{name}_r{lo}", harness="c05.container_run", sym=sym, fixed=fixed, timeout=1800 if th else 900))
+    # the same at 2 and 4 ticks per second (binary64 still exact: tick length 0.5 / 0.25)
+    for tp in (2, 4):
+        obs.append(CH(name=f"run_growing_tps{tp}", harness="c05.container_run", sym=dict(alloc=I(1, 50), r0=I(0, 45), d0=I(0, 1)),
+                      fixed=dict(layout=[[0]], tps=tp, K=24), timeout=900))
+        obs.append(CH(name=f"run_mixed_tps{tp}", harness="c05.container_run", sym=dict(alloc=I(1, 30), r0=I(0, 25), d0=I(0, 1), d1=I(0, 1), m1=I(0, 31)),
+                      fixed=dict(layout=[[0], [1]], tps=tp, K=24), timeout=900))
     tsym = dict(alloc=I(1, 50), r0=I(0, 45), d0=I(0, 2), d1=I(0, 2), m1=I(0, 51))
     for w in ("oom", "success", "zero"):
         obs.append(twin(f"run_{w}", "c05.container_run", tsym, dict(layout=[[0], [1]]), w))
@@ -61,7 +67,7 @@ def spec(tier):
                    "Segment.get_io_seconds", "Segment.get_cpu_time", "Segment.get_peak_memory_gb", "ScalingFuncs.*",
                    "ResourcePool.run_one_tick", "ResourcePool._run_out_of_memory_killer"],
         bounds={"operators": "1..4" if th else "1..3", "segments_per_operator": "1..2", "ticks_per_segment": "0..2 CPU + 0..3 I/O (read <= 65 GB)",
-                "scenario_tick_rate": 1, "kernel_tick_rate": "1..100000 (symbolic, RLX) / {1,10,100,1000,100000} (FPX)",
+                "scenario_tick_rate": "1 (all layouts), 2 and 4 (growing / mixed)", "kernel_tick_rate": "1..100000 (symbolic, RLX) / {1,10,100,1000,100000} (FPX)",
                 "kernel_sizes": "read, baseline in [0, 2^20]", "cpus": "1..256 (sqrt/log: table 1..64)"},
         outside=["user-supplied (callable) scaling functions", "tick rates above 100000, sizes above 2^20", "more than 4 operators / 2 segments per operator in the scenario harness"],
         assumptions=A_ASSUME + ["M7 np.log/np.sqrt evaluated with the real numpy on the concrete CPU counts 1..64; the division and the tick conversion are encoded",
